@@ -1,15 +1,14 @@
 package props
 
 import (
-	"bufio"
 	"bytes"
 	"fmt"
 	"io"
+	"net"
 	"net/http"
 	"os"
 	"os/exec"
 	"path/filepath"
-	"regexp"
 	"strings"
 	"time"
 
@@ -26,55 +25,48 @@ import (
 // compared with the model of the acknowledged operations.
 
 type binServer struct {
-	cmd  *exec.Cmd
-	base string
+	cmd    *exec.Cmd
+	base   string
+	exited chan error
 }
 
-var portRe = regexp.MustCompile(`using port: (\d+)`)
-
 func startBin(bin string, args []string) (*binServer, error) {
-	cmd := exec.Command(bin, append([]string{"-host", "127.0.0.1:0"}, args...)...)
-	stderr, err := cmd.StderrPipe()
+	// pick a free loopback port ourselves (no dependence on the server's log format)
+	l, err := net.Listen("tcp", "127.0.0.1:0")
 	if err != nil {
-		return nil, err
+		return nil, fmt.Errorf("listen tcp 127.0.0.1:0: %v", err)
 	}
+	addr := l.Addr().String()
+	l.Close()
+	cmd := exec.Command(bin, append([]string{"-host", addr}, args...)...)
+	var errBuf bytes.Buffer
+	cmd.Stderr = &errBuf
 	if err := cmd.Start(); err != nil {
 		return nil, err
 	}
-	portCh := make(chan string, 1)
-	go func() {
-		sc := bufio.NewScanner(stderr)
-		sent := false
-		var lines []string
-		for sc.Scan() {
-			lines = append(lines, sc.Text())
-			if m := portRe.FindStringSubmatch(sc.Text()); m != nil && !sent {
-				portCh <- m[1]
-				sent = true
-			}
+	exited := make(chan error, 1)
+	go func() { exited <- cmd.Wait() }()
+	deadline := time.Now().Add(20 * time.Second)
+	for time.Now().Before(deadline) {
+		select {
+		case werr := <-exited:
+			return nil, fmt.Errorf("server exited during start (%v): %s", werr, clip(errBuf.String(), 400))
+		default:
 		}
-		if !sent {
-			portCh <- "ERR " + strings.Join(lines, " | ")
+		if c, err := net.DialTimeout("tcp", addr, 200*time.Millisecond); err == nil {
+			c.Close()
+			return &binServer{cmd: cmd, base: "http://" + addr, exited: exited}, nil
 		}
-	}()
-	select {
-	case p := <-portCh:
-		if strings.HasPrefix(p, "ERR") {
-			cmd.Process.Kill()
-			cmd.Wait()
-			return nil, fmt.Errorf("server did not start: %s", p)
-		}
-		return &binServer{cmd: cmd, base: "http://127.0.0.1:" + p}, nil
-	case <-time.After(20 * time.Second):
-		cmd.Process.Kill()
-		cmd.Wait()
-		return nil, fmt.Errorf("server did not announce its port")
+		time.Sleep(5 * time.Millisecond)
 	}
+	cmd.Process.Kill()
+	<-exited
+	return nil, fmt.Errorf("server did not accept connections within 20 s: %s", clip(errBuf.String(), 400))
 }
 
 func (b *binServer) kill() {
 	b.cmd.Process.Kill() // SIGKILL
-	b.cmd.Wait()
+	<-b.exited
 }
 
 func (b *binServer) do(method, path string, hdr [][2]string, body []byte) drv.Resp {
